@@ -576,8 +576,8 @@ const RULE: &str = "histories of operations on a fresh PoolTracker<InMemoryStore
 Boot{h} (first operation only, h one of the two lowest event heights if <= 3: header h stored and poll until pending, as the unit tests' setup does), Hdr{h} (header h arrives; any order the store's adjacency rule admits), \
 Add{peer, hash, h} = add_peer_for_hash, Poll (poll until Pending), Timeout (paused clock +120 s); after every operation get_pool(h) is asked for every h in 0..=15. \
 One 14-header chain: heights 1,2,14 are empty blocks (same data hash), heights 3 and 12 carry the same non-empty square, all others differ. \
-Searches: quick = event heights {1,2,11}, 2 peers, hash in {data hash of header h, X (no header has it)}, depth 7. \
-thorough = (a) the same alphabet to depth 8; (b) event heights {3,12,13}, 2 peers, {right, X}, depth 8; (c) event heights {1,2,3,11,12,13}, 3 peers, hash in {right, X, data hash of another height, empty-square hash}, depth 5. \
+Searches: quick = (a) event heights {1,2,11}, 2 peers, hash in {data hash of header h, X (no header has it)}, depth 7; (b) event heights {1,12,13} (heads 11 and 12 above a tracked height), same peers/hashes, depth 6. \
+thorough = (a) and (b) to depth 8; (c) event heights {3,12,13}, 2 peers, {right, X}, depth 8; (d) event heights {1,2,3,11,12,13}, 3 peers, hash in {right, X, data hash of another height, empty-square hash}, depth 5. \
 Peers are introduced in index order (symmetry). state = distinct (tracker private state via verif_snapshot, stored heights, oracle bookkeeping); transition = one operation replayed on the real tracker; \
 non-trivial state = at least one height is tracked (candidates or validated). See `searches` for per-search counts and `caps_hit` for bounds not completed.";
 
@@ -608,10 +608,11 @@ fn main() {
             env_u("C40_DEPTH").unwrap_or(6) as usize,
         )]
     } else if ctx.quick() {
-        vec![mk(&[1, 2, 11], 2, false, false, 7)]
+        vec![mk(&[1, 2, 11], 2, false, false, 7), mk(&[1, 12, 13], 2, false, false, 6)]
     } else {
         vec![
             mk(&[1, 2, 11], 2, false, false, 8),
+            mk(&[1, 12, 13], 2, false, false, 8),
             mk(&[3, 12, 13], 2, false, false, 8),
             mk(&[1, 2, 3, 11, 12, 13], 3, true, true, 5),
         ]
